@@ -174,9 +174,16 @@ func (r *Reader) ReadPacketUsing(buf []byte) (pkt Packet, err error) {
 			return Packet{}, drpc.ProtocolError.New("data overflow (len:%v)", len(pkt.Data))
 
 		case fr.Done:
-			// increment the message id so that we do not accept any frames
-			// with the same id.
-			r.id.Message++
+			// move to the next id so that we do not accept any frames with
+			// the same id. at the largest message id the increment carries
+			// into the stream id: wrapping around to message 0 would accept
+			// the same and smaller ids of this stream again. past the very
+			// last id there is nothing, so stay on it.
+			if r.id.Message++; r.id.Message == 0 {
+				if r.id.Stream++; r.id.Stream == 0 {
+					r.id = ID{Stream: ^uint64(0), Message: ^uint64(0)}
+				}
+			}
 			return pkt, nil
 		}
 	}
